@@ -60,8 +60,15 @@ type apiEnv struct {
 	c *restful.Container
 }
 
-func newAPI() *apiEnv {
+func newAPI() *apiEnv { return newAPIWith(false) }
+
+// newAPIWith(wide): the pool spans two /24 blocks (10.0.0.250 ~ 10.0.1.5), so that addresses differ outside the last octet
+func newAPIWith(wide bool) *apiEnv {
 	cfg := []env.Config{{{ID: "p1", Subnets: []string{"s1"}, IPs: []string{"ip1", "ip2", "ip3", "ip4", "ip5", "ip6"}}}}
+	if wide {
+		cfg = []env.Config{{{ID: "p1", Subnets: []string{"s1"}, IPs: []string{}, RawSubnet: "10.0.0.0/16", RawGateway: "10.0.0.1", RawVlan: 1,
+			RawIPs: []string{"10.0.0.250~10.0.1.5"}}}}
+	}
 	w := env.NewWorld(cfg, map[string]string{"n1": "s1"}, false)
 	if err := w.StartProcess(); err != nil {
 		panic(err)
@@ -196,6 +203,29 @@ func main() {
 			}
 		}
 		post(*entry, "verbatim")
+		// a stale entry: the ip was listed under this owner, then moved to another owner with the same namespace and pod
+		// name (another pool); posting the old entry again must not touch the new owner's ip
+		if _, err := a.w.Inner.AllocateInSubnet(ko.KeyInDB, env.SubnetNet("s1"), floatingip.Attr{}); err == nil {
+			f3, _ := a.w.Inner.ByKeyAndIPRanges(ko.KeyInDB, nil)
+			v2 := v
+			if v.Pool == "" {
+				v2.Pool = "q"
+			} else {
+				v2.Pool = ""
+			}
+			ko2, _ := util.FormatKey(podOf(v2))
+			if len(f3) > 0 && ko2 != nil && ko2.KeyInDB != ko.KeyInDB {
+				ip3 := env.IPName(f3[0].IP)
+				stale := *entry
+				stale.IP = f3[0].IP.String()
+				if _, err := a.w.Inner.ReserveIP(ko.KeyInDB, ko2.KeyInDB, floatingip.Attr{}); err == nil {
+					_, _ = a.do("POST", "/v1/ip", api.ReleaseIPReq{IPs: []api.FloatingIP{stale}})
+					if a.keyOf(ip3) != ko2.KeyInDB {
+						add("release-addresses-other", v, fmt.Sprintf("posting the stale entry of %q released/changed %s which now belongs to %q (key now %q)", ko.KeyInDB, ip3, ko2.KeyInDB, a.keyOf(ip3)))
+					}
+				}
+			}
+		}
 		if v.Kind == "StatefulSet" {
 			if _, err := a.w.Inner.AllocateInSubnet(ko.KeyInDB, env.SubnetNet("s1"), floatingip.Attr{}); err == nil {
 				f2, _ := a.w.Inner.ByKeyAndIPRanges(ko.KeyInDB, nil)
@@ -213,7 +243,7 @@ func main() {
 	// ---- paging: n allocated ips, every page size
 	pagings := 0
 	for n := 0; n <= *maxN; n++ {
-		a := newAPI()
+		a := newAPIWith(n%2 == 0)
 		var want []string
 		for i := 0; i < n; i++ {
 			ip, err := a.w.Inner.AllocateInSubnet(fmt.Sprintf("sts_ns_s_s-%d", i), env.SubnetNet("s1"), floatingip.Attr{})
@@ -236,6 +266,22 @@ func main() {
 				}
 				if resp.Last {
 					break
+				}
+			}
+			// several rounds: the listing comes from a Go map, its iteration order differs from call to call
+			for round := 0; round < 6 && fmt.Sprint(got) == fmt.Sprint(want); round++ {
+				got = nil
+				for page := 0; page < 20; page++ {
+					_, resp := a.list(fmt.Sprintf("keyword=sts_&size=%d&page=%d", size, page))
+					if resp == nil {
+						break
+					}
+					for _, e := range resp.Content {
+						got = append(got, e.IP)
+					}
+					if resp.Last {
+						break
+					}
 				}
 			}
 			if fmt.Sprint(got) != fmt.Sprint(want) {
